@@ -42,6 +42,9 @@ fn plain_envelope() -> Envelope {
         .add_assertion("lowest", CBOR::try_from_hex("3bffffffffffffffff").expect("cbor"))
         .add_assertion("below i64", CBOR::try_from_hex("3b8000000000000000").expect("cbor"))
         .add_assertion("highest", u64::MAX)
+        // a leaf holding envelope-tagged CBOR that is not a well-formed envelope (a node whose second element is no
+        // assertion): the notation shows an error for it, every time and on every thread
+        .add_assertion("payload", CBOR::try_from_hex("d8c882d8c96161d8c96162").expect("cbor"))
 }
 
 #[derive(Clone, Copy, Debug, PartialEq, Eq, Hash, PartialOrd, Ord)]
